@@ -8,6 +8,7 @@ import Mathlib.Algebra.Order.Ring.Abs
 import Mathlib.Algebra.Order.BigOperators.Group.Finset
 import Mathlib.Tactic.Linarith
 import Mathlib.Tactic.Positivity
+import Mathlib.Tactic.FieldSimp
 
 open Matrix
 
@@ -18,10 +19,14 @@ open PM.Fock PM.Dist PM.SimSpec
 
 theorem sqrtUp_nonneg (x : ℚ) : 0 ≤ sqrtUp x := by
   unfold sqrtUp
-  exact div_nonneg (Nat.cast_nonneg _) (Nat.cast_nonneg _)
+  split
+  · exact le_rfl
+  · exact div_nonneg (Nat.cast_nonneg _) (Nat.cast_nonneg _)
 
 theorem sqrtUp_sq (x : ℚ) : x ≤ sqrtUp x * sqrtUp x := by
   unfold sqrtUp
+  split
+  · rename_i h; rw [mul_zero]; exact h
   have hS : (0 : ℚ) < (sqrtScale : ℚ) := by norm_num [sqrtScale]
   generalize hN : ⌈x * ((sqrtScale * sqrtScale : ℕ) : ℚ)⌉₊ = N
   have h1 : x * ((sqrtScale * sqrtScale : ℕ) : ℚ) ≤ (N : ℚ) := hN ▸ Nat.le_ceil _
@@ -381,5 +386,182 @@ theorem preprocess_kept_facts (m : ℕ) (prec minp : ℚ) (ms : List Member)
       rw [if_neg (by assumption)]
     rw [hθ]
     simpa using h2
+
+/-! ### stage 3: the amplitude threshold of `_merge_sv` (coherent loss) -/
+
+theorem memberGenericθ_eq {m : ℕ} (U : Matrix (Fin m) (Fin m) GQ) (θ : ℚ) (mb : Member) :
+    memberGenericθ U θ mb = (gatherAmps (ampsθ U θ mb)).map fun p =>
+      (flattenTuple m p.1, GQ.normSq p.2 / (((p.1.map prodFact).prod : ℕ) : ℚ) / svNorm2 mb.terms) := rfl
+
+theorem nonneg_memberGenericθ {m : ℕ} (U : Matrix (Fin m) (Fin m) GQ) (θ : ℚ) (mb : Member) :
+    NonNeg (memberGenericθ U θ mb) := by
+  rw [memberGenericθ_eq]
+  intro e he
+  obtain ⟨p, _, rfl⟩ := List.mem_map.1 he
+  exact div_nonneg (div_nonneg (normSq_nonneg _) (Nat.cast_nonneg _)) (svNorm2_nonneg _)
+
+theorem keyScale_nonneg (n2 : ℚ) (h : 0 ≤ n2) (k : List Fock) : 0 ≤ keyScale n2 k :=
+  mul_nonneg (inv_nonneg.2 (Nat.cast_nonneg _)) (inv_nonneg.2 h)
+
+theorem keyErr_nonneg {m : ℕ} (U : Matrix (Fin m) (Fin m) GQ) (θ : ℚ) (mb : Member) (k : List Fock) :
+    0 ≤ keyErr U θ mb k := by
+  show 0 ≤ droppedP U θ mb k + 2 * sqrtUp (keptP U θ mb k) * sqrtUp (droppedP U θ mb k)
+  have : 0 ≤ droppedP U θ mb k :=
+    mul_nonneg (normSq_nonneg _) (keyScale_nonneg _ (svNorm2_nonneg _) k)
+  have := mul_nonneg (mul_nonneg (by norm_num : (0 : ℚ) ≤ 2) (sqrtUp_nonneg (keptP U θ mb k)))
+    (sqrtUp_nonneg (droppedP U θ mb k))
+  linarith
+
+theorem genericErrD_eq {m : ℕ} (U : Matrix (Fin m) (Fin m) GQ) (θ : ℚ) (mb : Member) :
+    genericErrD U θ mb = (keysG U θ mb).map fun k => (flattenTuple m k, keyErr U θ mb k) := rfl
+
+theorem nonneg_genericErrD {m : ℕ} (U : Matrix (Fin m) (Fin m) GQ) (θ : ℚ) (mb : Member) :
+    NonNeg (genericErrD U θ mb) := by
+  rw [genericErrD_eq]
+  intro e he
+  obtain ⟨k, _, rfl⟩ := List.mem_map.1 he
+  exact keyErr_nonneg U θ mb k
+
+/-- **coherent loss, one member**: the amplitude threshold changes the probability of every outcome by at
+most the sum of `keyErr` over the annotated outputs of that outcome -/
+theorem generic_threshold_bound {m : ℕ} (U : Matrix (Fin m) (Fin m) GQ) (θ : ℚ) (mb : Member) (t : Fock) :
+    |get (memberGenericθ U 0 mb) t - get (memberGenericθ U θ mb) t| ≤ get (genericErrD U θ mb) t := by
+  classical
+  have hn2 : 0 ≤ svNorm2 mb.terms := svNorm2_nonneg _
+  have hS0 : ∀ K ∈ (ampsθ U 0 mb).map (·.1), K ∈ (keysG U θ mb).toFinset := by
+    intro K hK
+    rw [List.mem_toFinset, keysG, List.mem_dedup, List.map_append]
+    exact List.mem_append_left _ hK
+  have hSθ : ∀ K ∈ (ampsθ U θ mb).map (·.1), K ∈ (keysG U θ mb).toFinset := by
+    intro K hK
+    rw [List.mem_toFinset, keysG, List.mem_dedup, List.map_append]
+    exact List.mem_append_right _ hK
+  rw [memberGenericθ_eq, memberGenericθ_eq, get_toBsd m _ _ t _ hS0, get_toBsd m _ _ t _ hSθ]
+  have hE : get (genericErrD U θ mb) t =
+      ∑ K ∈ (keysG U θ mb).toFinset, if flattenTuple m K == t then keyErr U θ mb K else 0 := by
+    rw [genericErrD_eq, get_map_pair]
+    exact (List.sum_toFinset _ (List.nodup_dedup _ : (keysG U θ mb).Nodup)).symm
+  rw [hE, div_eq_mul_inv, div_eq_mul_inv, Finset.sum_mul, Finset.sum_mul, ← Finset.sum_sub_distrib]
+  refine (Finset.abs_sum_le_sum_abs _ _).trans (Finset.sum_le_sum fun K _ => ?_)
+  unfold outW
+  split
+  · have := normSq_sub_bound (ampGet (ampsθ U 0 mb) K) (ampGet (ampsθ U θ mb) K)
+      (keyScale (svNorm2 mb.terms) K) (keyScale_nonneg _ hn2 K)
+    have e : ∀ x : ℚ, x / (((K.map prodFact).prod : ℕ) : ℚ) * (svNorm2 mb.terms)⁻¹ =
+        x * keyScale (svNorm2 mb.terms) K := by
+      intro x; unfold keyScale; rw [div_eq_mul_inv, mul_assoc]
+    rw [e, e]
+    exact this
+  · simp
+
+theorem generic_err_total {m : ℕ} (U : Matrix (Fin m) (Fin m) GQ) (θ : ℚ) (mb : Member) (S : Finset Fock) :
+    ∑ t ∈ S, get (genericErrD U θ mb) t ≤ mass (genericErrD U θ mb) :=
+  sum_get_le_mass _ (nonneg_genericErrD U θ mb) S
+
+/-! ### the final `res.normalize()` -/
+
+theorem get_normalize (d : D) (h : mass d ≠ 0) (t : Fock) : get (normalize d) t = (mass d)⁻¹ * get d t := by
+  rw [Dist.normalize, if_neg h, get_scale]
+
+/-- two un-normalised results that differ by at most `e t` per outcome and `E` in total: their masses differ by
+at most `E`, their normalised versions by at most `(e t + P(t)·E) / mass` per outcome and `2E / mass` in total
+variation -/
+theorem normalize_perturb (p q : D) (e : Fock → ℚ) (E : ℚ)
+    (hp : ∀ t, 0 ≤ get p t) (hq : ∀ t, 0 ≤ get q t)
+    (hpt : ∀ t, |get q t - get p t| ≤ e t) (hS : ∀ S : Finset Fock, ∑ t ∈ S, e t ≤ E)
+    (hMp : mass p ≠ 0) (hMq : mass q ≠ 0) :
+    |mass q - mass p| ≤ E ∧
+    (∀ t, |get (normalize q) t - get (normalize p) t| ≤ (e t + get (normalize p) t * E) / mass q) ∧
+    ∀ S : Finset Fock, ∑ t ∈ S, |get (normalize q) t - get (normalize p) t| ≤ 2 * E / mass q := by
+  classical
+  set K : Finset Fock := (p.map (·.1)).toFinset ∪ (q.map (·.1)).toFinset with hK
+  have hmp : mass p = ∑ t ∈ K, get p t := mass_eq_sum_get p K
+    (fun x hx => Finset.mem_union_left _ (List.mem_toFinset.2 (List.mem_map.2 ⟨x, hx, rfl⟩)))
+  have hmq : mass q = ∑ t ∈ K, get q t := mass_eq_sum_get q K
+    (fun x hx => Finset.mem_union_right _ (List.mem_toFinset.2 (List.mem_map.2 ⟨x, hx, rfl⟩)))
+  have hE0 : 0 ≤ E := by simpa using hS ∅
+  have hMp0 : 0 < mass p := lt_of_le_of_ne (hmp ▸ Finset.sum_nonneg fun t _ => hp t) (Ne.symm hMp)
+  have hMq0 : 0 < mass q := lt_of_le_of_ne (hmq ▸ Finset.sum_nonneg fun t _ => hq t) (Ne.symm hMq)
+  have hmass : |mass q - mass p| ≤ E := by
+    rw [hmp, hmq, ← Finset.sum_sub_distrib]
+    exact (Finset.abs_sum_le_sum_abs _ _).trans ((Finset.sum_le_sum fun t _ => hpt t).trans (hS K))
+  have hnp : ∀ t, 0 ≤ get (normalize p) t := fun t => by
+    rw [get_normalize p hMp]; exact mul_nonneg (inv_nonneg.2 hMp0.le) (hp t)
+  have hpoint : ∀ t, |get (normalize q) t - get (normalize p) t| ≤
+      (e t + get (normalize p) t * E) / mass q := by
+    intro t
+    have key : get (normalize q) t - get (normalize p) t =
+        ((get q t - get p t) + get (normalize p) t * (mass p - mass q)) / mass q := by
+      rw [get_normalize p hMp, get_normalize q hMq]
+      field_simp
+      ring
+    rw [key, abs_div, abs_of_pos hMq0]
+    apply div_le_div_of_nonneg_right _ hMq0.le
+    refine (abs_add_le _ _).trans (add_le_add (hpt t) ?_)
+    rw [abs_mul, abs_of_nonneg (hnp t)]
+    exact mul_le_mul_of_nonneg_left (by rw [abs_sub_comm]; exact hmass) (hnp t)
+  refine ⟨hmass, hpoint, ?_⟩
+  intro S
+  have h1 : ∑ t ∈ S, get (normalize p) t ≤ 1 := by
+    have := sum_get_le_mass' (normalize p) hnp S
+    rwa [mass_normalize p hMp] at this
+  calc ∑ t ∈ S, |get (normalize q) t - get (normalize p) t|
+      ≤ ∑ t ∈ S, (e t + get (normalize p) t * E) / mass q := Finset.sum_le_sum fun t _ => hpoint t
+    _ = ((∑ t ∈ S, e t) + (∑ t ∈ S, get (normalize p) t) * E) / mass q := by
+        simp only [div_eq_mul_inv]
+        rw [← Finset.sum_mul, Finset.sum_add_distrib, Finset.sum_mul]
+    _ ≤ 2 * E / mass q := by
+        apply div_le_div_of_nonneg_right _ hMq0.le
+        have := hS S
+        have := mul_le_mul_of_nonneg_right h1 hE0
+        linarith
+
+theorem mass_perturb (p q : D) (e : Fock → ℚ) (E : ℚ)
+    (hpt : ∀ t, |get q t - get p t| ≤ e t) (hS : ∀ S : Finset Fock, ∑ t ∈ S, e t ≤ E) :
+    |mass q - mass p| ≤ E := by
+  classical
+  set K : Finset Fock := (p.map (·.1)).toFinset ∪ (q.map (·.1)).toFinset with hK
+  have hmp : mass p = ∑ t ∈ K, get p t := mass_eq_sum_get p K
+    (fun x hx => Finset.mem_union_left _ (List.mem_toFinset.2 (List.mem_map.2 ⟨x, hx, rfl⟩)))
+  have hmq : mass q = ∑ t ∈ K, get q t := mass_eq_sum_get q K
+    (fun x hx => Finset.mem_union_right _ (List.mem_toFinset.2 (List.mem_map.2 ⟨x, hx, rfl⟩)))
+  rw [hmp, hmq, ← Finset.sum_sub_distrib]
+  exact (Finset.abs_sum_le_sum_abs _ _).trans ((Finset.sum_le_sum fun t _ => hpt t).trans (hS K))
+
+theorem memberErrD_get {m : ℕ} (U : Matrix (Fin m) (Fin m) GQ) (sup : Bool) (θ : ℚ) (mb : Member) (t : Fock) :
+    get (memberErrD U sup θ mb) t = memberErrAt U sup θ mb t := by
+  unfold memberErrD memberErrAt
+  split
+  · rfl
+  · rw [get_append, get_scale]; ring
+
+theorem memberErrD_mass {m : ℕ} (U : Matrix (Fin m) (Fin m) GQ) (sup : Bool) (θ : ℚ) (mb : Member) :
+    mass (memberErrD U sup θ mb) = memberErrTot U sup θ mb := by
+  unfold memberErrD memberErrTot
+  split
+  · rfl
+  · rw [mass_append, mass_scale]; ring
+
+theorem errD_get {m : ℕ} (U : Matrix (Fin m) (Fin m) GQ) (prec minp : ℚ) (ms : List Member) (t : Fock) :
+    get (errD U prec minp ms) t = errAt U prec minp ms t := by
+  unfold errD errAt trimAt mixAt
+  simp only
+  rw [get_append, get_mix, get_mix, List.map_map, List.map_map]
+  congr 1
+  congr 1
+  apply List.map_congr_left
+  intro mb _
+  simp only [Function.comp_apply, memberErrD_get]
+
+theorem errD_mass {m : ℕ} (U : Matrix (Fin m) (Fin m) GQ) (prec minp : ℚ) (ms : List Member) :
+    mass (errD U prec minp ms) = errTot U prec minp ms := by
+  unfold errD errTot trimMass mixMass
+  simp only
+  rw [mass_append, mass_mix, mass_mix, List.map_map, List.map_map]
+  congr 1
+  congr 1
+  apply List.map_congr_left
+  intro mb _
+  simp only [Function.comp_apply, memberErrD_mass]
 
 end PM.C03
